@@ -76,7 +76,7 @@ def n_params(kernel_type):
     return 1 if kernel_type.startswith("modified_helmholtz") else (0 if kernel_type.startswith("laplace") else 2)
 
 
-def extract(ctx, fname, singular, nparams, skip_if=(), module=NK):
+def extract(ctx, fname, singular, nparams, skip_if=(), module=NK, skip_sign=False, signs=None):
     """Return (value at a generic point pair, list of `if p != 0` parameters seen).
 
     The value is over atoms x*, y*, nx*, ny*, kr/ki or w."""
@@ -98,8 +98,10 @@ def extract(ctx, fname, singular, nparams, skip_if=(), module=NK):
         trial_n = tn
     kp = Tensor((nparams,), [KR, KI][:nparams] if nparams == 2 else [W][:nparams])
     args = dict(zip(params, [xp, tp, Tensor((3,), NX), trial_n, kp]))
-    it = Interp(m, fn, args, hooks={"globals": GLOBALS, "skip_if": skip_if})
+    it = Interp(m, fn, args, hooks={"globals": GLOBALS, "skip_if": skip_if, "skip_sign": skip_sign})
     r = it.run()
+    if signs is not None:
+        signs.extend(it.seen_sign_ifs)
     if r is None:
         raise AnalysisError("kernel %s returns nothing" % fname)
     nd = symex._ndim(r)
@@ -128,8 +130,21 @@ def extract(ctx, fname, singular, nparams, skip_if=(), module=NK):
 
 def extract_checked(ctx, fname, singular, nparams, module=NK):
     """Extract and check the `if p != 0` fast paths: the skipped path must equal the taken path at p = 0."""
-    v, ifs = extract(ctx, fname, singular, nparams, module=module)
+    signs = []
+    v, ifs = extract(ctx, fname, singular, nparams, module=module, signs=signs)
     ok = True
+    if signs:
+        # a guard on the sign of a parameter: the value where the guard fails must be the same expression (two formulas
+        # for one analytic kernel that agree on a half-line are identical)
+        vo, _ = extract(ctx, fname, singular, nparams, module=module, skip_sign=True)
+        same = all(a.eq(b) for a, b in zip(v if isinstance(v, list) else [v], vo if isinstance(vo, list) else [vo]))
+        if not same:
+            from .core import SignGuard
+
+            fn = ctx.repo.mod(module).fn(fname)
+            raise SignGuard(module, fname, fn.lineno, "sign guard: " + "; ".join(t for _, t in signs),
+                              "the kernel applies part of its formula only when `%s`: for the other sign of that parameter the value is a different function (%s is analytic in its parameters; "
+                              "a factor or term that depends on the parameter cannot be dropped on a half-line)" % ("`, `".join(t for _, t in signs), fname))
     if ifs:
         v0, _ = extract(ctx, fname, singular, nparams, skip_if=("*",), module=module)
         env = {p: Poly() for p in ifs}
